@@ -11,6 +11,8 @@ R03.4 gas accounting                 : the Ok arm of the main loop charges the i
       inherits the parent's gas; nothing else writes the gas counter.
 R03.5 forked thread's first instruction: the fork path also consults the forking thread's own visit count of the target.
 R03.6 loop audit                     : every `loop` / `while` in code reachable from analyze() is classified in a reviewed table.
+R03.7 bounded recursion and ranges   : every recursive call-graph component has a reviewed (and, for seen-set cuts, verified)
+      depth bound, and no range loop is scaled by an unclamped attacker-chosen constant (= C01 R01.3 / R01.4, re-evaluated).
 """
 from .. import facts as F
 from .. import tables
@@ -360,6 +362,12 @@ def check(fx, rep, tier):
             )
     rep.floor("R03.6", n_loops, 20, "loops on the analyze() call graph")
     rep.extra["loops_on_pipeline"] = n_loops
+    # ---------------------------------------------------------------- R03.7 (shared with C01 R01.3 / R01.4)
+    # "the whole analysis halts": no recursion without a reviewed, verified depth bound, and no loop whose trip count is an
+    # unclamped attacker-chosen constant (a 2^59-iteration copy loop inside one instruction defeats every configured bound).
+    from .. import core
+
+    core.import_rules(rep, fx, "C01", "R03.7", only_rules=("R01.3", "R01.4"), floor=10, what="recursive components and attacker-scaled ranges audited for halting")
     return rep.finish(
         "Control-skeleton audit of the four execution bounds: who writes the instruction pointer and who may step; the stop condition guarding the single step "
         "(visit limit at ip+1, gas > limit, killed) normalised from its inlined terms; the fork guard and fork_to's true-path; the normal form of the limit comparison and the unit increment; "
